@@ -181,6 +181,7 @@ type fnCtx struct {
 	curSkolems   []modelInput
 	boundCalls   map[int]bool
 	countCalls   map[string]bool // callee names mentioned in calls(f) by the contract
+	stableFVs    []string        // addresses of captured variables that are never assigned after their capture
 	wantResults  map[string]bool // "f#k" keys mentioned in callresult(f, k) by the contract
 	callResults  map[string]Val  // results of the last execution of those call sites
 	boundAfters  map[int]bool
@@ -242,6 +243,16 @@ func (fc *fnCtx) heapGet(st *State, name, sort string) string {
 	}
 	n := fc.defs.Declare("H."+name+"."+st.heapBase, sort)
 	t.heapInit[key] = n
+	if len(t.stableFVs) > 0 && t.entry != nil && st.heapBase != t.entry.heapBase && (strings.HasPrefix(name, "f.") || strings.HasPrefix(name, "p.")) {
+		if e0, ok := t.heapInit[name+"@"+t.entry.heapBase]; ok || t.entry.heap[name] == "" {
+			if !ok {
+				e0 = fc.heapGet(t.entry, name, sort)
+			}
+			for _, pv := range t.stableFVs {
+				fc.defs.Axiom(n, fmt.Sprintf("(= (select %s %s) (select %s %s))", n, pv, e0, pv))
+			}
+		}
+	}
 	// representation invariants of stored values (non-negative lengths, unsigned ranges) hold in every heap
 	if et := t.heapElemTy[name]; et != nil {
 		if strings.HasPrefix(name, "f.") || strings.HasPrefix(name, "p.") {
@@ -1163,6 +1174,12 @@ func (fc *fnCtx) execBody(st0 *State, args []Val) {
 		fc.vals[fv] = Val{T: n, Ty: fv.Type()}
 		// the address of a captured variable: never nil, allocated before the closure runs
 		fc.assume(st0, fmt.Sprintf("(and (> %s 0) (< %s %s))", n, n, st0.alloc))
+		// a captured variable that nothing assigns after its capture (no store to it or into it in the enclosing
+		// function after its initialisation nor in any of its closures, its address never handed out) keeps its
+		// value whatever the code called from here does: heap havocs leave its cell alone (see heapGet)
+		if fc == fc.top && !fc.inline && !fc.specMode && stableCapture(fv) {
+			fc.top.stableFVs = append(fc.top.stableFVs, n)
+		}
 	}
 	fc.findLoops()
 	order := rpo(fn)
@@ -1889,6 +1906,12 @@ func (fc *fnCtx) execBinOp(st *State, x *ssa.BinOp) {
 		return
 	}
 	r := fc.setVal(x, res)
+	if x.Op == token.QUO && isFloat(t) && !fc.specMode && fc.top.contract != nil && fc.top.contract.Finite {
+		// floats are reals here: the one way a division leaves the reals is a zero divisor (Inf or NaN in Go)
+		if c, isConst := x.Y.(*ssa.Const); !isConst || (c.Value != nil && constant.Sign(c.Value) == 0) {
+			fc.oblige(st, "fdiv", "", not(eq(b.T, "0.0")), "float division: the divisor is not zero (the quotient would be Inf or NaN)", x.Pos(), true)
+		}
+	}
 	if x.Op == token.QUO && isFloat(t) && !fc.specMode {
 		if _, isConst := x.Y.(*ssa.Const); !isConst {
 			// sign of a real quotient by a variable divisor (solvers do not derive it through
@@ -2699,4 +2722,97 @@ func siteCalleeName(c *ssa.CallCommon) string {
 		return bi.Name()
 	}
 	return dynCalleeName(c.Value)
+}
+
+// stableCapture: the variable captured as fv is never assigned after its capture: in the outermost enclosing
+// function the only stores to it are whole-variable stores in the entry block (its initialisation from a
+// parameter or a first value), no closure stores to it or into it, and no address derived from it is
+// passed to a call, stored, sliced or returned. Such a variable is read-only for the lifetime of the closures.
+func stableCapture(fv *ssa.FreeVar) bool {
+	// resolve to the root alloc
+	var root ssa.Value = fv
+	for {
+		f, ok := root.(*ssa.FreeVar)
+		if !ok {
+			break
+		}
+		fn := f.Parent()
+		idx := -1
+		for i, x := range fn.FreeVars {
+			if x == f {
+				idx = i
+			}
+		}
+		parent := fn.Parent()
+		if idx < 0 || parent == nil {
+			return false
+		}
+		var binding ssa.Value
+		for _, b := range parent.Blocks {
+			for _, ins := range b.Instrs {
+				if mc, ok := ins.(*ssa.MakeClosure); ok && mc.Fn == fn && idx < len(mc.Bindings) {
+					if binding != nil && binding != mc.Bindings[idx] {
+						return false
+					}
+					binding = mc.Bindings[idx]
+				}
+			}
+		}
+		if binding == nil {
+			return false
+		}
+		root = binding
+	}
+	alloc, ok := root.(*ssa.Alloc)
+	if !ok {
+		return false
+	}
+	var readOnly func(v ssa.Value, whole bool, inRoot bool) bool
+	var closureUses func(fn *ssa.Function, bound ssa.Value) bool
+	readOnly = func(v ssa.Value, whole bool, inRoot bool) bool {
+		refs := v.Referrers()
+		if refs == nil {
+			return false
+		}
+		for _, r := range *refs {
+			switch x := r.(type) {
+			case *ssa.DebugRef:
+			case *ssa.UnOp:
+				if x.Op != token.MUL {
+					return false
+				}
+			case *ssa.FieldAddr:
+				if !readOnly(x, false, inRoot) {
+					return false
+				}
+			case *ssa.IndexAddr:
+				if !readOnly(x, false, inRoot) {
+					return false
+				}
+			case *ssa.Store:
+				if x.Addr != v || !whole || !inRoot || x.Block().Index != 0 {
+					return false
+				}
+			case *ssa.MakeClosure:
+				if !whole {
+					return false
+				}
+				for i, b := range x.Bindings {
+					if b == v {
+						cf := x.Fn.(*ssa.Function)
+						if i >= len(cf.FreeVars) || !closureUses(cf, cf.FreeVars[i]) {
+							return false
+						}
+					}
+				}
+			default:
+				return false
+			}
+		}
+		return true
+	}
+	closureUses = func(fn *ssa.Function, bound ssa.Value) bool {
+		return readOnly(bound, true, false)
+	}
+	return readOnly(alloc, true, true)
 }
